@@ -1381,6 +1381,10 @@ class Interp:
                     if a[0] == 'ctr' and b[0] == 'ctr' and seg == 'max':
                         best = ('ctr', ('max', a[1], b[1]))       # counters are symbolic: the greater of two is a term
                         continue
+                    if a[0] == 'int' and b[0] == 'int' and a[1] is not None and b[1] is not None:
+                        if (seg == 'max' and b[1] >= a[1]) or (seg == 'min' and b[1] < a[1]):
+                            best = x
+                        continue
                     r = self.order.cmp(a[1], b[1])
                     if (seg == 'max' and r in '<=') or (seg == 'min' and r == '>'):
                         best = x
@@ -1398,6 +1402,36 @@ class Interp:
                 for x in self.drain(io, depth):
                     acc = self.call_closure(A[2], [acc, x], depth)
                 return acc
+            if seg in ('try_fold', 'try_for_each'):
+                acc = A[1] if seg == 'try_fold' else UNIT
+                clo_ = A[2] if seg == 'try_fold' else A[1]
+                body_, t_ = getattr(self, 'cur', (None, None))
+                dty_ = body_.local_ty(t_['dest']['l']) if body_ is not None and not t_['dest']['p'] else ''
+                while True:
+                    x = self.iter_next(io, depth)
+                    if x is None:
+                        break
+                    r = self.deref_all(self.call_closure(clo_, [acc, x] if seg == 'try_fold' else [x], depth))
+                    if r is None or r[0] != 'adt':
+                        raise Unmodelled('try_fold step returns %r' % (r[0] if r else None,))
+                    cont = (r[1] == 'core::ops::control_flow::ControlFlow' and r[2] == 0) or (r[1] == 'core::result::Result' and r[2] == 0) or (r[1] == 'core::option::Option' and r[2] == 1)
+                    if not cont:
+                        return r
+                    acc = r[3][0].v if r[3] else UNIT
+                h_ = ty_head(dty_)
+                if h_ == 'core::option::Option':
+                    return mk_option(acc)
+                if h_ == 'core::ops::control_flow::ControlFlow':
+                    return ('adt', h_, 0, [Cell(acc)])
+                return ('adt', 'core::result::Result', 0, [Cell(acc)])
+            if seg == 'sum':
+                tot = 0
+                for x in self.drain(io, depth):
+                    xv = self.deref_all(x)
+                    if xv[0] != 'int' or xv[1] is None:
+                        raise Unmodelled('sum of non-integers')
+                    tot += xv[1]
+                return ('int', tot)
             if seg in ('rev', 'by_ref', 'fuse', 'peekable'):
                 if seg == 'rev':
                     xs = self.drain(io, depth)
